@@ -874,3 +874,38 @@ F("R33", "C08", CR_, "    x1 = (s1 * k1 - z1) * r1inv % n", "    x1 = (s1 * k1 +
 F("R40", "C11", L + "ec_util.py", "      x, y = p\n      return (x, y, 1)", "      x, y = p\n      return (x, y, 0)", "R-C11-FORMULA", "finite point converted to a Jacobian point at infinity")
 F("R41", "C11", L + "ec_util.py", "      x, y = p\n      return (x, y, 1)", "      x, y = p\n      return (y, x, 1)", "R-C11-FORMULA", "coordinates swapped by AffineToJacobian")
 F("R42", "C02", L + "ec_util.py", "      x, y = p\n      return (x, y, 1)", "      x, y = p\n      return (x, y, 2)", "R-C02-VERIFY", "z = 2: Multiply(G, k) no longer reproduces the key")
+
+# lattice bases (write tables), search wiring, definite assignment
+F("R50", "C08", HN_, "  lat[0] = [n * w + 1, 0] + [v * w for v in a]", "  lat[0] = [n * w - 1, 0] + [v * w for v in a]", "R-C08-LATTICE", "first basis vector is -1 instead of 1 mod n")
+F("R51", "C08", HN_, "  lat[1] = [0, 1] + [v * w for v in b]", "  lat[1] = [0, 1] + [v * w for v in a]", "R-C08-LATTICE", "second basis vector built from a")
+F("R52", "C08", HN_, "  for j in range(2, lat_size):\n    lat[j][j] = n * w\n  if bias == Bias.MSB:", "  for j in range(3, lat_size):\n    lat[j][j] = n * w\n  if bias == Bias.MSB:", "R-C08-LATTICE", "first sample is not reduced modulo n")
+F("R53", "C08", HN_, "  elif bias == Bias.COMMON_PREFIX:\n    for j in range(2, lat_size):\n      lat[2][j] = w", "  elif bias == Bias.COMMON_PREFIX:\n    for j in range(2, lat_size):\n      lat[j][2] = w", "R-C08-LATTICE", "all-ones vector written as a column")
+F("R54", "C08", HN_, "    a = [v * w_inv % n for v in a]\n    b = [v * w_inv % n for v in b]", "    a = [v * w_inv % n for v in a]\n    b = [v * w % n for v in b]", "R-C08-LATTICE", "postfix problem: b scaled by w instead of 1/w")
+F("R55", "C08", HN_, "  elif bias == Bias.GENERALIZED:\n    lat[0][0] = 1\n", "  elif bias == Bias.GENERALIZED:\n    lat[0][0] = 0\n", "R-C08-LATTICE", "generalized lattice loses the multiplier coordinate")
+F("R56", "C08", HN_, "      lattice[0][t] = (a[i] * c - d) % n * w", "      lattice[0][t] = (a[i] * c + d) % n * w", "R-C08-LATTICE", "sign of the model offset d")
+F("R57", "C08", HN_, "      t = i * len(constants) + j + 2", "      t = i * len(constants) + j + 1", "R-C08-LATTICE", "sample columns shifted onto the key column")
+F("R58", "C08", HN_, "      lattice[1][t] = (b[i] * c % n) * w", "      lattice[1][t] = (b[i] * c % n)", "R-C08-LATTICE", "b row not scaled by w")
+F("R59", "C08", CR_, "    lat[j + words][-1] = v * b % p", "    lat[j + words][-1] = v * a % p", "R-C08-LATTICE", "second block of the U2F lattice uses a")
+F("R60", "C08", CR_, "  lat[-2][-2] = 256", "  lat[-2][-2] = 1", "R-C08-LATTICE", "U2F lattice: weight of the w row")
+F("R61", "C08", CR_, "    k2 = abs(sum(v * w for v, w in zip(basis, row[words : 2 * words])))", "    k2 = abs(sum(v * w for v, w in zip(basis, row[:words])))", "R-C08-EXTRACT", "k2 read from the coordinates of k1")
+F("R62", "C08", CR_, "    x2 = (s2 * k2 - z2) * int(gmpy.invert(r2, n)) % n", "    x2 = (s2 * k2 + z2) * int(gmpy.invert(r2, n)) % n", "R-C08-EXTRACT", "cross-check formula wrong: every correct pair raises")
+F("R63", "C08", HN_, "    if v[0] % n != 0:\n      guess = v[1] * gmpy.invert(v[0], n) % n", "    if v[0] % n != 0:\n      guess = v[0] * gmpy.invert(v[1], n) % n", "R-C08-EXTRACT", "precomputation solver: quotient inverted")
+F("R64", "C08", HN_, "    if constants[\"curve\"] != curve_type:\n      continue", "    if constants[\"curve\"] != curve_type:\n      break", "R-C08-SUBSETS", "first model of another curve ends the search")
+F("R65", "C08", HN_, "    if lcg not in [constants[\"lcg\"], None]:", "    if lcg in [constants[\"lcg\"], None]:", "R-C08-SUBSETS", "model selection inverted")
+F("R66", "C08", HN_, "  if not flags:\n    raise ValueError(\"No flags specified\")", "  if flags:\n    raise ValueError(\"No flags specified\")", "R-C08-SUBSETS", "every non-empty strategy refused")
+F("R67", "C08", HN_, "    guesses += HiddenNumberProblemWithPrecomputation(a0, b0, n, constants, w)", "    guesses = HiddenNumberProblemWithPrecomputation(a0, b0, n, constants, w)", "R-C08-SUBSETS", "only the guesses of the last problem are returned")
+F("R68", "C08", HN_, "    guesses += HiddenNumberProblemWithPrecomputation(a0, b0, n, constants, w)", "    guesses += HiddenNumberProblemWithPrecomputation(a0, b0, w, constants, n)", "R-C08-SUBSETS", "modulus and weight swapped at the call")
+T("R69", "C08", HN_, "  lat[0] = [n * w + 1, 0] + [v * w for v in a]", "  lat[0][0] = n * w + 1\n  for i_, v_ in enumerate(a):\n    lat[0][i_ + 2] = v_ * w", "first basis vector filled cell by cell")
+T("R70", "C08", HN_, "  for j in range(2, lat_size):\n    lat[j][j] = n * w\n  if bias == Bias.MSB:", "  for j in range(len(a)):\n    lat[j + 2][j + 2] = w * n\n  if bias == Bias.MSB:", "diagonal with a shifted index")
+LS_ = L + "randomness_tests/lattice_suite.py"
+F("R75", "C13", LS_, "    mat[1][i] = w\n", "    mat[1][i] = n\n", "R-C13-SEARCH", "offset vector scaled by n")
+F("R76", "C13", LS_, "  mat = GetLattice(training_sample, w, n)", "  mat = GetLattice(training_sample, n, w)", "R-C13-SEARCH", "modulus and weight swapped at the call")
+F("R77", "C13", LS_, "    if c0 != 0 and math.gcd(c0, n)**2 < n:\n      c = c0\n      break", "    if c0 != 0 and math.gcd(c0, n)**2 < n:\n      c = c0\n      continue", "R-C13-SEARCH", "the last usable row wins instead of the shortest")
+F("R78", "C13", LS_, "  biased = [x * c % n for x in training_sample]", "  biased = [x % n for x in training_sample]", "R-C13-SEARCH", "offset fitted for the untransformed blocks")
+F("R79", "C13", LS_, "    c0 = row[0] % n", "    c0 = row[1] % n", "R-C13-SEARCH", "multiplier read from the offset coordinate")
+F("R80", "C13", LS_, "    if i > 1:\n      mat[i][i] = n * w", "    if i > 2:\n      mat[i][i] = n * w", "R-C13-SEARCH", "second sample not reduced modulo n")
+T("R81", "C13", LS_, "  for i in range(1, size):\n    mat[0][i] = a[i - 1] * w\n    mat[1][i] = w\n    if i > 1:\n      mat[i][i] = n * w",
+  "  for i in range(len(a)):\n    mat[0][i + 1] = a[i] * w\n    mat[1][i + 1] = w\n  for i in range(2, size):\n    mat[i][i] = w * n", "two loops instead of a guarded one")
+F("R85", "C18", L + "ec_util.py", "      if i == steps - 1:\n        res = points\n      else:", "      if i == steps - 2:\n        res = points\n      else:", "R-C18-DEFINED", "comb accumulator used before its first binding")
+T("R88", "C18", L + "ec_util.py", "      if i == steps - 1:\n        res = points\n      else:\n        res = self.BatchDouble(res)\n        res = self.BatchAddList(res, points)",
+  "      if i != steps - 1:\n        res = self.BatchDouble(res)\n        res = self.BatchAddList(res, points)\n      else:\n        res = points", "first-pass initialisation with the branches swapped")
